@@ -20,8 +20,13 @@ func genRand(ctx *Ctx, emit func(Case)) {
 		}
 		line := fmt.Sprintf("rand.u32n %d %s", n, l)
 		out := goExec(line)
-		emit(Case{Stream: stream, Line: line, GoOut: out, Branch: strings.Fields(out)[0] + fmt.Sprintf("/reads=%d", len(strings.Fields(out))),
-			Sample: map[string]interface{}{"op": "csprngUint32n", "n": n, "source_words": vs}})
+		c := Case{Stream: stream, Line: line, GoOut: out, Branch: strings.Fields(out)[0] + fmt.Sprintf("/reads=%d", len(strings.Fields(out))),
+			Sample: map[string]interface{}{"op": "csprngUint32n", "n": n, "source_words": vs}}
+		if len(vs) > 0 {
+			v0 := vs[0]
+			c.Predicate = func() string { return uniformPredicate(n, v0) }
+		}
+		emit(c)
 	}
 	// boundary source words around every acceptance threshold and result change
 	ns := []uint64{1, 2, 3, 4, 5, 6, 7, 8, 9, 10, 11, 12, 13, 15, 16, 17, 31, 32, 33, 100, 255, 256, 257, 1000, 65535, 65536, 65537,
@@ -131,4 +136,70 @@ func init() {
 		},
 		trusted: []string{"harness/cmd/corr", "hook VerifCsprngUint32n/VerifCsprngShuffle (verif build tag)"},
 	})
+}
+
+// uniformPredicate: C19's "each bounded draw is exactly uniform" evaluated on
+// the implementation around source word v: count the source words that yield
+// the same result as v's class (the words whose high product word is r form one
+// interval; rejected words, if any, sit at its ends).  Two results with
+// different numbers of preimages, or one with more than floor(2^32/n), is a
+// non-uniform draw.
+func uniformPredicate(n, v uint64) string {
+	const W = uint64(1) << 32
+	if n == 0 {
+		return ""
+	}
+	probe := func(x uint64) (bool, uint64) {
+		o := goExec(fmt.Sprintf("rand.u32n %d %d", n, x))
+		f := strings.Fields(o)
+		if len(f) >= 2 && f[0] == "ok" {
+			r, _ := strconv.ParseUint(f[1], 10, 64)
+			return true, r
+		}
+		return false, 0
+	}
+	count := func(r uint64) (cnt uint64, exact bool, lo, hi uint64) {
+		lo = (r*W + n - 1) / n
+		hi = ((r+1)*W+n-1)/n - 1
+		size := hi - lo + 1
+		var xs []uint64
+		if size <= 5000 {
+			for x := lo; x <= hi; x++ {
+				xs = append(xs, x)
+			}
+			exact = true
+		} else {
+			for d := uint64(0); d < 3; d++ {
+				xs = append(xs, lo+d, hi-d)
+			}
+			for k := uint64(1); k <= 64; k++ {
+				xs = append(xs, lo+(size/65)*k)
+			}
+		}
+		rej := uint64(0)
+		for _, x := range xs {
+			ok, res := probe(x)
+			if !ok || res != r {
+				rej++
+			}
+		}
+		return size - rej, exact, lo, hi
+	}
+	r := (v * n) >> 32
+	c1, ex1, lo, hi := count(r)
+	how := "every word of the interval was tried"
+	if !ex1 {
+		how = "both ends and 64 interior words were tried, the rest of the interval is assumed accepted"
+	}
+	if c1 > W/n {
+		return fmt.Sprintf("csprngUint32n(%d) is not uniform: result %d is produced by %d source words (%d..%d; %s), more than floor(2^32/%d) = %d — e.g. rand.u32n %d %d and rand.u32n %d %d", n, r, c1, lo, hi, how, n, W/n, n, lo, n, hi)
+	}
+	r2 := (r + 1) % n
+	if r2 != r {
+		c2, _, _, _ := count(r2)
+		if c2 != c1 {
+			return fmt.Sprintf("csprngUint32n(%d) is not uniform: result %d is produced by %d source words but result %d by %d (%s)", n, r, c1, r2, c2, how)
+		}
+	}
+	return ""
 }
